@@ -7,6 +7,7 @@ import numpy as np
 import common
 import gen
 import refsym
+import replaylib as rl
 from c09 import value_eq, describe
 
 IMPORTS = ('From SV Require Import Base.Sym Base.Tensor Gen.PhasePerm Model.SymInst Model.Sectors Model.Array Model.Arith Model.Fermi.\n')
@@ -132,6 +133,7 @@ def run(ctx):
         stats['odd'] += par; stats['pending'] += bool(x.phases); stats['complex'] += cplx
         stats['mixed_dual'] += (not all_ket and any(not ix.dual for ix in x.indices))
         xd = {'symmetry': sym, 'x': describe(x)}
+        x_full = rl.describe_safe(x)     # complete description for the replay files, taken before any operation runs
         if par or x.phases:
             ctx.nontrivial((sym, str(sorted(x.blocks)), str([ix.dual for ix in x.indices]), par, str(sorted(x.phases)), len(x.oddpos)))
         # ---- norms: <x|x> in both operand orders
@@ -145,30 +147,38 @@ def run(ctx):
                     axes = (list(range(nd)), list(range(nd)))
                     v = sr.tensordot(xc, x, axes=axes) if order == 'conj_first' else sr.tensordot(x, xc, axes=axes)
                     if abs(complex(v) - n2) > 1e-9 * max(1.0, n2):
-                        found.append({'op': 'norm via conj(phase_dual=%s), %s' % (pd, order), **xd, 'got': complex(v), 'expected_norm2': n2})
+                        found.append({'op': 'norm via conj(phase_dual=%s), %s' % (pd, order), **xd, 'got': complex(v), 'expected_norm2': n2,
+                                      'replay': rl.record('norm', {'x': x_full}, {'symmetry': sym, 'phase_dual': pd, 'order': order})})
                     # the adjoint route: dagger reverses the axes
                     xh = x.dagger(phase_dual=pd)
                     ax_r = (list(range(nd))[::-1], list(range(nd)))
                     v2 = sr.tensordot(xh, x, axes=ax_r) if order == 'conj_first' else sr.tensordot(x, xh, axes=(list(range(nd)), list(range(nd))[::-1]))
                     if abs(complex(v2) - n2) > 1e-9 * max(1.0, n2):
-                        found.append({'op': 'norm via dagger(phase_dual=%s), %s' % (pd, order), **xd, 'got': complex(v2), 'expected_norm2': n2})
+                        found.append({'op': 'norm via dagger(phase_dual=%s), %s' % (pd, order), **xd, 'got': complex(v2), 'expected_norm2': n2,
+                                      'replay': rl.record('norm', {'x': x_full}, {'symmetry': sym, 'phase_dual': pd, 'order': order})})
                 except Exception as e:
-                    found.append({'op': 'norm', **xd, 'raised': '%s: %s' % (type(e).__name__, e), 'phase_dual': pd, 'order': order})
+                    found.append({'op': 'norm', **xd, 'raised': '%s: %s' % (type(e).__name__, e), 'phase_dual': pd, 'order': order,
+                                  'replay': rl.record('norm', {'x': x_full}, {'symmetry': sym, 'phase_dual': pd, 'order': order})})
         # ---- adjoint laws
         ctx.count()
         try:
             if not value_eq(x.conj().conj(), x):
-                found.append({'op': 'conj(conj(x))', **xd, 'error': 'conjugating twice does not return the original'})
+                found.append({'op': 'conj(conj(x))', **xd, 'error': 'conjugating twice does not return the original',
+                              'replay': rl.record('adjoint', {'x': x_full}, {'symmetry': sym})})
             if not value_eq(x.dagger().dagger(), x):
-                found.append({'op': 'dagger(dagger(x))', **xd, 'error': 'taking the adjoint twice does not return the original'})
+                found.append({'op': 'dagger(dagger(x))', **xd, 'error': 'taking the adjoint twice does not return the original',
+                              'replay': rl.record('adjoint', {'x': x_full}, {'symmetry': sym})})
             if not value_eq(x.H.H, x):
-                found.append({'op': 'x.H.H', **xd, 'error': '.H twice does not return the original'})
+                found.append({'op': 'x.H.H', **xd, 'error': '.H twice does not return the original',
+                              'replay': rl.record('adjoint', {'x': x_full}, {'symmetry': sym})})
             for pd in (False, True):
                 if not value_eq(x.dagger(phase_dual=pd), x.conj(phase_dual=pd).transpose()):
                     found.append({'op': 'dagger(phase_dual=%s) vs conj then reversal' % pd, **xd,
-                                  'error': 'the adjoint is not the conjugate followed by the fermionic reversal of axes'})
+                                  'error': 'the adjoint is not the conjugate followed by the fermionic reversal of axes',
+                                  'replay': rl.record('adjoint', {'x': x_full}, {'symmetry': sym})})
         except Exception as e:
-            found.append({'op': 'adjoint laws', **xd, 'raised': '%s: %s' % (type(e).__name__, e)})
+            found.append({'op': 'adjoint laws', **xd, 'raised': '%s: %s' % (type(e).__name__, e),
+                          'replay': rl.record('adjoint', {'x': x_full}, {'symmetry': sym})})
         # ---- model tie
         for pp, pd in ((True, False), (True, True), (False, False), (False, True)):
             r = x.conj(phase_permutation=pp, phase_dual=pd)
@@ -191,6 +201,13 @@ def run(ctx):
             stats['networks'] += 1
             if any(l.startswith('d') and t.arr.indices[i].dual for t in tens for i, l in enumerate(t.legs)):
                 stats['net_with_bra_dangling'] += 1
+            # for the replay files: the tensors before anything is contracted, and the generator state the
+            # contraction routes and modes are drawn from
+            net_full = [rl.describe_safe(t.arr) for t in tens]
+            net_rng = rl.rng_state(rng)
+
+            def rp_net():
+                return rl.record('network', {'tensors': net_full}, {'symmetry': sym, 'legs': [t.legs for t in tens], 'rng': net_rng})
             try:
                 ket = contract_route(sr, tens, random_route(rng, ntens), rng)
                 ket_arr = ket.arr.phase_sync()
@@ -204,12 +221,12 @@ def run(ctx):
                     got = scalar_of(contract_route(sr, allt, random_route(rng, len(allt)), rng))
                     if abs(got - want) > 1e-9 * max(1.0, want):
                         found.append({'op': 'network norm <N|N>', 'symmetry': sym, 'tensors': [describe(t.arr) for t in tens],
-                                      'legs': [t.legs for t in tens], 'got': got, 'expected': want})
+                                      'legs': [t.legs for t in tens], 'got': got, 'expected': want, 'replay': rp_net()})
                         break
                 ctx.nontrivial(('net', sym, ntens, str([t.legs for t in tens]), str([t.arr.charge for t in tens])))
             except Exception as e:
                 found.append({'op': 'network norm', 'symmetry': sym, 'tensors': [describe(t.arr) for t in tens], 'legs': [t.legs for t in tens],
-                              'raised': '%s: %s' % (type(e).__name__, e)})
+                              'raised': '%s: %s' % (type(e).__name__, e), 'replay': rp_net()})
     bad_idx = common.run_cases(ctx, 'conj', IMPORTS, '', exprs, shard=80)
     tie_broken = []
     if bad_idx is None:
@@ -222,10 +239,11 @@ def run(ctx):
         if f['op'] in seen or len(seen) >= 5:
             continue
         seen.add(f['op'])
-        ctx.violation('%s fails' % f['op'], {'oracle': 'integer |x|^2 / adjoint laws on the implementation', **f})
+        ctx.violation('%s fails' % f['op'], {'oracle': 'integer |x|^2 / adjoint laws on the implementation', **f, 'run': rl.run_info(ctx)})
     ctx.broken += tie_broken
     if (not ok or tie_broken) and not found:
-        ctx.violation('proof obligation or tie of C10 no longer checks', {'broken': ctx.broken}, found_input=False)
+        ctx.violation('proof obligation or tie of C10 no longer checks',
+                      {'broken': ctx.broken, 'replay': rl.record('proof_phase')}, found_input=False)
     ctx.extra['case_classes'] = stats
     ctx.extra['tie'] = {'model_cases': len(exprs)}
     ctx.coverage['rule'] = ('random fermionic arrays (rank 1-3(+1), four symmetries, every dualness pattern, even/odd with labels incl. arrays carrying '
@@ -234,7 +252,78 @@ def run(ctx):
                             'pending signs, or a network; distinct by full structure')
 
 
+# ------------------------------------------------------------------ replay
+def _rp_norm(sr, ins, pr, r):
+    """<x|x> through conj and through dagger, in both operand orders, against the integer |x|^2"""
+    x = ins['x']
+    nd = x.ndim
+    n2 = norm2_exact(x)
+    all_ket = all(not ix.dual for ix in x.indices)
+    fails = []
+    for pd in (False, True):
+        if not (pd or all_ket):
+            continue
+        for order in ('conj_first', 'conj_second'):
+            try:
+                xc = x.conj(phase_dual=pd)
+                axes = (list(range(nd)), list(range(nd)))
+                v = sr.tensordot(xc, x, axes=axes) if order == 'conj_first' else sr.tensordot(x, xc, axes=axes)
+                if abs(complex(v) - n2) > 1e-9 * max(1.0, n2):
+                    fails.append({'what': '<x|x> via conj(phase_dual=%s), %s' % (pd, order), 'expected': n2, 'got': complex(v)})
+                xh = x.dagger(phase_dual=pd)
+                ax_r = (list(range(nd))[::-1], list(range(nd)))
+                v2 = sr.tensordot(xh, x, axes=ax_r) if order == 'conj_first' else sr.tensordot(x, xh, axes=(list(range(nd)), list(range(nd))[::-1]))
+                if abs(complex(v2) - n2) > 1e-9 * max(1.0, n2):
+                    fails.append({'what': '<x|x> via dagger(phase_dual=%s), %s' % (pd, order), 'expected': n2, 'got': complex(v2)})
+            except Exception as e:
+                fails.append({'what': 'norm (phase_dual=%s, %s) raises' % (pd, order), 'expected': n2, 'got': '%s: %s' % (type(e).__name__, e)})
+    return fails
+
+
+def _rp_adjoint(sr, ins, pr, r):
+    x = ins['x']
+    fails = []
+    try:
+        if not value_eq(x.conj().conj(), x):
+            fails.append({'what': 'conj(conj(x)) is not x', 'expected': describe(x), 'got': describe(x.conj().conj())})
+        if not value_eq(x.dagger().dagger(), x):
+            fails.append({'what': 'dagger(dagger(x)) is not x', 'expected': describe(x), 'got': describe(x.dagger().dagger())})
+        if not value_eq(x.H.H, x):
+            fails.append({'what': 'x.H.H is not x', 'expected': describe(x), 'got': describe(x.H.H)})
+        for pd in (False, True):
+            if not value_eq(x.dagger(phase_dual=pd), x.conj(phase_dual=pd).transpose()):
+                fails.append({'what': 'dagger(phase_dual=%s) is not conj followed by the fermionic reversal of axes' % pd,
+                              'expected': describe(x.conj(phase_dual=pd).transpose()), 'got': describe(x.dagger(phase_dual=pd))})
+    except Exception as e:
+        fails.append({'what': 'adjoint laws raise', 'expected': 'results', 'got': '%s: %s' % (type(e).__name__, e)})
+    return fails
+
+
+def _rp_network(sr, ins, pr, r):
+    """<N|N> = |[[N]]|^2 along the recorded routes (drawn again from the recorded generator state)"""
+    rng = rl.rng_from_state(pr['rng'])
+    tens = [TN(a, legs) for a, legs in zip(ins['tensors'], pr['legs'])]
+    ntens = len(tens)
+    try:
+        ket = contract_route(sr, tens, random_route(rng, ntens), rng)
+        ket_arr = ket.arr.phase_sync()
+        want = sum(float(np.sum(np.abs(np.asarray(b)) ** 2)) for b in ket_arr.blocks.values())
+        bra = conj_network(tens)
+        for rep in range(3):
+            allt = bra + tens if rng.random() < 0.5 else tens + bra
+            rng.shuffle(allt)
+            got = scalar_of(contract_route(sr, allt, random_route(rng, len(allt)), rng))
+            if abs(got - want) > 1e-9 * max(1.0, want):
+                return [{'what': 'network norm <N|N> along route %d' % rep, 'expected': want, 'got': got}]
+    except Exception as e:
+        return [{'what': 'network norm raises', 'expected': 'a number', 'got': '%s: %s' % (type(e).__name__, e)}]
+    return []
+
+
+ORACLES = {'norm': _rp_norm, 'adjoint': _rp_adjoint, 'network': _rp_network}
+
+
 def replay(path):
-    r = json.load(open(path))
-    print(json.dumps(r, indent=1)[:4000])
-    return 0
+    """re-run the recorded failing case against $SYMMRAY_REPO: 1 = still fails, 0 = passes now"""
+    import sys
+    return rl.dispatch(path, 'C10', ORACLES, sys.modules[__name__])
